@@ -538,6 +538,9 @@ DynamicBitset DynamicBitset::operator >>( size_t pos) const noexcept( true)
 
    DynamicBitset  dbs( mData.size());
 
+   if (pos >= mData.size())
+      return dbs;
+
    for (size_t idx = 0; idx + pos < mData.size(); ++idx)
    {
       dbs.mData[ idx] = mData[ idx + pos];
@@ -559,6 +562,12 @@ DynamicBitset& DynamicBitset::operator >>=( size_t pos) noexcept( true)
 
    if ((pos == 0) || (mData.size() == 0))
       return *this;
+
+   if (pos >= mData.size())
+   {
+      std::fill( mData.begin(), mData.end(), false);
+      return *this;
+   } // end if
 
    for (size_t idx = 0; idx + pos < mData.size(); ++idx)
    {
